@@ -82,6 +82,42 @@ def build_harness(profile="release"):
         return rc, out
 
 
+PROD_TARGET = os.path.join(WORK, "target-prod")
+PROD_BIN = os.path.join(PROD_TARGET, "release", "nederlang")
+
+
+def build_production():
+    """the crate's own command-line program, built from the working tree WITHOUT the observation feature: the code a
+    user runs (print!, the real deallocation, the float spelling outside the hooks)"""
+    with Lock("cargo"):
+        cmd = ["cargo", "build", "--offline", "--release", "--bin", "nederlang", "--manifest-path", os.path.join(REPO, "Cargo.toml"), "--target-dir", PROD_TARGET]
+        return sh(cmd, cwd=REPO, timeout=1800)
+
+
+def run_production(sources, timeout=20):
+    """-> list of (returncode, stdout bytes, stderr text) of the production binary on each source (one process each)"""
+    import tempfile
+    out = []
+    d = tempfile.mkdtemp(prefix="nlprod", dir=os.path.join(WORK, "cases"))
+    try:
+        for i, src in enumerate(sources):
+            path = os.path.join(d, "p%d.nl" % i)
+            with open(path, "w", encoding="utf-8") as f:
+                f.write(src)
+            try:
+                p = subprocess.run(["prlimit", "--as=4294967296", PROD_BIN, path], stdout=subprocess.PIPE, stderr=subprocess.PIPE, timeout=timeout)
+                out.append((p.returncode, p.stdout, p.stderr.decode("utf-8", "replace")))
+            except subprocess.TimeoutExpired:
+                out.append((None, b"", "TIMEOUT"))
+            os.unlink(path)
+    finally:
+        try:
+            os.rmdir(d)
+        except OSError:
+            pass
+    return out
+
+
 def crosscheck_tables():
     """The translator's reading of the source against what the compiled crate itself reports (opcode bytes, names,
     operand widths; builtin bytes and names): a check on the translator.  Returns a list of differences."""
